@@ -12,13 +12,19 @@
 #include <mutex>
 #include <vector>
 
+#include <time.h>
+#include <string.h>
+
 using namespace verif;
 
 static thread_local uint64_t t_jit = 88172645463325252ull;
 static unsigned g_jitter_den = 32;
+static thread_local bool t_long_stalls = false; // the (offline) updater: now and then it is descheduled for a whole grace period inside await_barrier
 extern "C" void frg_verif_point(const char *site, const void *, unsigned long) {
 	t_jit ^= t_jit << 13; t_jit ^= t_jit >> 7; t_jit ^= t_jit << 17;
 	if(site[0] == 's' && site[1] == 'p') return;
+	// between reading the counter and publishing the desired counter: long enough for the readers to complete a period and defer the next
+	if(t_long_stalls && !strcmp(site, "qs.barrier.load_desired") && t_jit % 3 == 0) { timespec ts{0, 60000 + (long)(t_jit % 7) * 20000}; nanosleep(&ts, nullptr); return; }
 	if(t_jit % g_jitter_den == 0) { if(t_jit & 0x100) sched_yield(); else for(volatile int i = 0; i < (int)((t_jit >> 12) & 0x1ff); i++) {} }
 }
 
@@ -40,7 +46,8 @@ static void reclaim(frg::qs_node *n) {
 
 using Mutex = std::mutex;
 
-static void torture(long long idx, int nreaders, unsigned updates, bool joiners, bool barrier_caller) {
+// offline_updater: the updater registers its callbacks and calls run() as an agent that is NOT online (a pure writer is no reader)
+static void torture(long long idx, int nreaders, unsigned updates, bool joiners, bool barrier_caller, bool offline_updater = false) {
 	begin_case("tsan:torture", idx);
 	frg::qs_domain<Mutex> dom;
 	std::atomic<Obj *> published{nullptr};
@@ -94,22 +101,26 @@ static void torture(long long idx, int nreaders, unsigned updates, bool joiners,
 		// the updater is an agent too
 		t_jit = 4242 + idx;
 		frg::qs_agent<Mutex> ag(&dom);
+		t_long_stalls = offline_updater;
+		if(offline_updater) { for(int tries = 0; tries < 1000000; tries++) { try { ag.offline(); break; } catch(...) { ag.quiescent_state(); } } count("tsan_runs_with_offline_updater"); }
 		int registered = 0;
 		for(unsigned u = 0; u < updates; u++) {
 			Obj *fresh = make(2 + u % 900);
 			Obj *old = published.exchange(fresh, std::memory_order_seq_cst);
 			if(old) { ag.await_barrier(&old->node); registered++; }
-			ag.quiescent_state();
+			if(!offline_updater) ag.quiescent_state();
 			in_run = 1; ag.run(); in_run = 0;
 			if(u % 16 == 0) std::this_thread::yield();
+			if(offline_updater && u % 4 == 0) for(volatile int i = 0; i < 300; i++) {} // let periods complete between registrations
 		}
 		// bounded progress: keep reporting and running; all registered callbacks must arrive
 		uint64_t spins = 0;
-		while(cb_count.load() < registered && spins < 20000000) { ag.quiescent_state(); in_run = 1; ag.run(); in_run = 0; spins++; if(spins % 64 == 0) std::this_thread::yield(); }
+		while(cb_count.load() < registered && spins < 20000000) { if(!offline_updater) ag.quiescent_state(); in_run = 1; ag.run(); in_run = 0; spins++; if(spins % 64 == 0) std::this_thread::yield(); }
 		if(cb_count.load() < registered) violation("C11:threads:L-grace-period-lost", strf("%d of %d registered callbacks never ran although all agents kept reporting quiescent states", registered - cb_count.load(), registered));
 		count("tsan_callbacks", cb_count.load());
 		stop.store(true, std::memory_order_seq_cst);
-		for(int tries = 0; tries < 1000000; tries++) { ag.quiescent_state(); try { ag.offline(); break; } catch(...) {} }
+		t_long_stalls = false;
+		if(!offline_updater) for(int tries = 0; tries < 1000000; tries++) { ag.quiescent_state(); try { ag.offline(); break; } catch(...) {} }
 	}
 	for(auto &x : th) x.join();
 	if(barrier_caller) barrier_thread.join();
@@ -130,7 +141,7 @@ int main(int argc, char **argv) {
 	for(uint64_t i = 0; i < runs; i++) {
 		long long idx = i * opt.nshards + opt.shard;
 		g_jitter_den = (i % 2) ? 8 : 48;
-		torture(idx, 2 + idx % 4, opt.thorough() ? 3000 : 500, i % 3 == 1, i % 4 == 2);
+		torture(idx, 2 + idx % 4, opt.thorough() ? 3000 : 500, i % 3 == 1, i % 4 == 2, i % 5 >= 3);
 	}
 	sample("tsan:torture: updater exchanges the published object 700 times, await_barrier(old) + run(); 2-5 readers read its plain fields between quiescent_state() calls; the callback overwrites and deletes the object");
 	return finish();
